@@ -1,4 +1,22 @@
+//! h_window — C12 (tumbling/count/session windows), C13 (sliding windows), C14 (aggregates),
+//! C15 (joins), C24 (watermarks). One module per property; see DESIGN.md §3 and README-harness.md.
+
+mod c12;
+mod c13;
+mod c14;
+mod c15;
+mod c24;
+mod common;
+
 fn main() {
     let args = mc::parse_args();
-    mc::machinery_error(&format!("{} is not built yet", args.prop));
+    mc::quiet_panics();
+    match args.prop.as_str() {
+        "C12" => c12::run(&args),
+        "C13" => c13::run(&args),
+        "C14" => c14::run(&args),
+        "C15" => c15::run(&args),
+        "C24" => c24::run(&args),
+        other => mc::machinery_error(&format!("h_window serves C12, C13, C14, C15, C24 (got {other})")),
+    }
 }
